@@ -209,7 +209,7 @@ def bm1(F, R):
                 if Ls:
                     h_, body_, backs_ = Ls[0]
                     for (gb, gi, g) in all_guards(fn):
-                        if gb not in body_ or fn.succ(gb)[gi][0] in body_ or fn.term(fn.succ(gb)[gi][0])["k"] == "Unreachable":
+                        if gb not in body_ or fn.succ(gb)[gi][0] in body_ or fn.term(fn.land(fn.succ(gb)[gi][0]))["k"] == "Unreachable":
                             continue
                         exhausted = g.kind == "variant" and g.variant == "None" and has_sub(g.term, lambda q: q[0] == "call" and q[1] and q[1].endswith("Iterator::next"))
                         failed = g.kind == "variant" and g.variant in ("Break", "Err")
@@ -1576,7 +1576,7 @@ def ft10(F, R):
         fb = first[0][0]
         rb = retry[0][0]
         g, _ = guarded(fn, rb, lambda g: g.kind == "variant" and g.variant == "NotEnoughSpace" and has_sub(g.term, lambda q: q[0] == "call" and q[3] == fb))
-        g2, _ = guarded(fn, rb, lambda g: g.kind == "bool" and g.term[0] == "cmp" and g.term[1] == "Gt" and g.truth is True and g.term[3][:2] == ("c", 2))
+        g2, _ = guarded(fn, rb, g_cmp("Gt", True, None, lambda z: strip_refs(z)[:2] == ("c", 2)))
         R.require(g and g2, fn, "retry-on-nospace", "the wrap-around search must run exactly when the hinted search (start > 2) returned NotEnoughSpace", fn.loc(rb))
         # an Err(NotEnoughSpace) from the hinted search with start > 2 must not reach the function's Err return without the retry
         for (gb, gi, g_) in all_guards(fn):
